@@ -12,7 +12,12 @@ S: random histories of 7-15 public operations on the same objects (construction,
 import numpy as np
 
 from .. import common, histgen
-from ..parallel import validate_chunks
+from ..parallel import validate_chunks, pmap
+
+
+def _hist(arg):
+    seed, quick = arg
+    return histgen.run_history(common.import_repo(), seed, quick)[0]
 
 
 def run(ctx):
@@ -26,11 +31,9 @@ def run(ctx):
               invariants=['LenOK', 'KindOK', 'NeverRaised'], coverage=True)
     ctx.model('Sector', 'm_F3_legacy', constants=dict(NOBJ=2, MaxDepth=3, LegacyFromVector='TRUE'), invariants=['NeverRaised'],
               expect_violation='NeverRaised')
-    seeds = [ctx.replay['replay']['seed']] if ctx.replay is not None else [int(x) for x in rng.integers(1 << 30, size=ctx.pick(260, 6000))]
-    traces = []
-    for s in seeds:
-        t02, _ = histgen.run_history(ptn, s, ctx.quick)
-        traces.append(t02)
+    seeds = [ctx.replay['replay']['seed']] if ctx.replay is not None else [int(x) for x in rng.integers(1 << 30, size=ctx.pick(700, 6000))]
+    traces = pmap(_hist, [(s, ctx.quick) for s in seeds])
+    for s, t02 in zip(seeds, traces):
         ctx.count(s, nontrivial=sum(1 for r in t02 if r.get('kind') == 'inplace') >= 1 and len(t02) >= 6)
     ctx.notes['operations'] = sum(len(t) for t in traces)
     names = {}
